@@ -43,6 +43,55 @@ def rust_effect(case) -> dict:
     return eff
 
 
+def memory_and_load(ctx, py, w, arms, mem_py=None, mem_rs=None):
+    if mem_py is None:
+        mem_py, mem_rs = set(), set()
+        for meth in PM.INTERP_METHODS:
+            st = PM.level_facts(py, w.stateful, meth)
+            got = w.serializer_cases(meth)
+            if st is None or got is None:
+                continue
+            if any(rec['mem'] for rec in st.paths):
+                mem_py.add(meth)
+            # a memory append that does not happen on every accepting path is a different event count
+            if any(rec['mem'] for rec in st.paths) and not all(rec['mem'] for rec in st.paths):
+                ctx.ob('memory-events', f'conditional-append/{meth}', False,
+                       f'StatefulInterpreter.{meth} appends to memory on some paths only; the machine appends on every {meth}',
+                       py.where(w.stateful.module, st.node))
+            for c in got[1]:
+                op = c['opcode']
+                for ap in arms.get(op, []):
+                    if ap.end != 'next':
+                        continue
+                    cs = M.to_case(ap)
+                    if meth in PHASE_OF and (('variant', ('param', 'phase')), PHASE_OF[meth]) not in cs['conds']:
+                        continue
+                    if any(e[1] == 'memory' for e in cs['effects']):
+                        mem_rs.add(op + ('/' + PHASE_OF[meth] if meth in PHASE_OF else ''))
+    # memory grows at the same events on both sides
+    want = {'save': 'Save', 'publish_axiom': 'Publish/Gamma'}
+    ctx.ob('memory-events', 'same-events', {want.get(m, m) for m in mem_py} == mem_rs,
+           f'tracker appends to memory in {sorted(mem_py)}, machine in {sorted(mem_rs)}', py.where(w.stateful.module))
+    # Load addressing
+    got = w.serializer_cases('load')
+    if got is not None:
+        mf, cases = got
+        where = py.where(w.top.module, mf.node)
+        for c in cases:
+            ops_ = c['operands']
+            ok = len(ops_) == 1 and ops_[0][0] == 'scalar' and ops_[0][1] == ('call', ('attr', PM.MEM0, 'index'), (('param', 'term'),), ())
+            sup = [s for s in c['rec']['supers'] if s[0] == 'load']
+            ok = ok and len(sup) == 1 and sup[0][1][-1] == ('param', 'term')
+            ctx.ob('load-address', 'serializer', ok,
+                   'the Load operand must be self.memory.index(<the term passed to super().load>)', where,
+                   facts={'operand': [show(o[1]) for o in ops_]})
+        st = PM.level_facts(py, w.stateful, 'load')
+        ok = all(any(cnd == ('cmp', 'in', ('param', 'term'), PM.MEM0) and b is True for cnd, b in rec['conds'])
+                 and rec['pushes'] == [('param', 'term')] for rec in st.paths)
+        ctx.ob('load-address', 'tracker', ok, 'StatefulInterpreter.load must require the term to be in memory and push that term',
+               py.where(w.stateful.module, st.node))
+
+
 def run(ctx):
     py = PyRepo.get()
     r = Rust.get()
@@ -94,6 +143,9 @@ def run(ctx):
                             'mem': mem, 'claims_shift': rec['claims'] == 'shift', 'peeked': peeked, 'rec': rec})
             if rec['mem']:
                 mem_py.add(meth)
+        if any(rec['mem'] for rec in st.paths) and not all(rec['mem'] for rec in st.paths):
+            ctx.ob('memory-events', f'conditional-append/{meth}', False,
+                   f'StatefulInterpreter.{meth} appends to memory on some paths only; the machine appends on every {meth}', where)
         # --- rust effect for the opcode(s) this call writes
         for op in ops:
             racc = [M.to_case(ap) for ap in arms.get(op, []) if ap.end == 'next']
@@ -159,28 +211,13 @@ def run(ctx):
                  for rec in mf.paths)
         ctx.ob('phase-reset', trans, ok, f'{trans} must clear the tracked stack and keep memory and claims',
                py.where(w.stateful.module, mf.node))
-    # memory grows at the same events on both sides
-    want = {'save': 'Save', 'publish_axiom': 'Publish/Gamma'}
-    ctx.ob('memory-events', 'same-events', {want.get(m, m) for m in mem_py} == mem_rs,
-           f'tracker appends to memory in {sorted(mem_py)}, machine in {sorted(mem_rs)}', py.where(w.stateful.module))
-    # Load addressing
-    got = w.serializer_cases('load')
-    if got is not None:
-        mf, cases = got
-        where = py.where(w.top.module, mf.node)
-        for c in cases:
-            ops_ = c['operands']
-            ok = len(ops_) == 1 and ops_[0][0] == 'scalar' and ops_[0][1] == ('call', ('attr', PM.MEM0, 'index'), (('param', 'term'),), ())
-            sup = [s for s in c['rec']['supers'] if s[0] == 'load']
-            ok = ok and len(sup) == 1 and sup[0][1][-1] == ('param', 'term')
-            ctx.ob('load-address', 'serializer', ok,
-                   'the Load operand must be self.memory.index(<the term passed to super().load>)', where,
-                   facts={'operand': [show(o[1]) for o in ops_]})
-        st = PM.level_facts(py, w.stateful, 'load')
-        ok = all(any(cnd == ('cmp', 'in', ('param', 'term'), PM.MEM0) and b is True for cnd, b in rec['conds'])
-                 and rec['pushes'] == [('param', 'term')] for rec in st.paths)
-        ctx.ob('load-address', 'tracker', ok, 'StatefulInterpreter.load must require the term to be in memory and push that term',
-               py.where(w.stateful.module, st.node))
+    memory_and_load(ctx, py, w, arms, mem_py, mem_rs)
+    # the terms the tracker holds are the terms the machine builds: slot / operand wiring of every call (shared with C02)
+    from . import c02, c05
+    py_ops = c02.py_opcodes(py)
+    dec = c05.decode_table(r)
+    for meth in PM.INTERP_METHODS:
+        c02.method_row(ctx, w, meth, arms, py_ops, dec)
     ctx.floor('effect', 24)
     ctx.floor('phase-reset', 2)
     ctx.floor('load-address', 2)
